@@ -199,10 +199,36 @@ func offPolynomialDKG(sch scheme, n, t int, victim uint16, which int, delta int6
 
 // offPolynomialDKGctx: as above; party `observer` (0 = none) runs under a context that ends at its k-th consultation (k = 0: never,
 // consultations only counted). Returns the number of consultations the observer's KeyGen made.
-func offPolynomialDKGctx(sch scheme, n, t int, victim uint16, which int, delta int64, rng *mrand.Rand, observer uint16, k int64) (map[uint16]error, []string, bool, bool, int64) {
+// c18idVariant: party identifier sets for the key generations of (ii): 0 = 1..n, 1 = a gap after the second party, 2 = offset 11..,
+// 3 = multiples of 257 ending at 65535. victim / observer are POSITIONS (1-based) and are translated here.
+var c18idVariant int
+
+func c18ids(n int) []uint16 {
 	var ids []uint16
 	for i := 1; i <= n; i++ {
-		ids = append(ids, uint16(i))
+		switch c18idVariant {
+		case 1:
+			v := i
+			if i > 2 {
+				v = i + 1
+			}
+			ids = append(ids, uint16(v))
+		case 2:
+			ids = append(ids, uint16(10+i))
+		case 3:
+			ids = append(ids, uint16(65535-257*(n-i)))
+		default:
+			ids = append(ids, uint16(i))
+		}
+	}
+	return ids
+}
+
+func offPolynomialDKGctx(sch scheme, n, t int, victim uint16, which int, delta int64, rng *mrand.Rand, observer uint16, k int64) (map[uint16]error, []string, bool, bool, int64) {
+	ids := c18ids(n)
+	victim = ids[victim-1]
+	if observer != 0 {
+		observer = ids[observer-1]
 	}
 	d := newDrun(sch, ids, t, rng)
 	var cc *countCtx
@@ -300,7 +326,7 @@ func unitC18ctx(e common.Env, p *common.Part) {
 }
 
 func unitC18dkg(e common.Env, p *common.Part) {
-	p.Rule = "(ii) directly wired BLS and PS key generations in which exactly one party p (every p in turn) ends up with sk_p+delta (delta added to a share it receives, so that its commitment and reveal are consistent; PS: on x and on each y_j): for t<n every party must return an error, for t=n (any n keys lie on one polynomial of degree n-1) and for delta=0 every party must accept; distinct key = (scheme, n, t, position, scalar); non-trivial always"
+	p.Rule = "(ii) directly wired BLS and PS key generations in which exactly one party p (every p in turn) ends up with sk_p+delta (delta added to a share it receives, so that its commitment and reveal are consistent; PS: on x and on each y_j): for t<n every party must return an error, for t=n (any n keys lie on one polynomial of degree n-1) and for delta=0 every party must accept; party identifier sets 1..n, with a gap, offset (11..) and 16-bit multiples of 257 ending at 65535 in turn; distinct key = (scheme, n, t, position, scalar); non-trivial always"
 	type job struct {
 		sch    scheme
 		n, t   int
@@ -334,9 +360,12 @@ func unitC18dkg(e common.Env, p *common.Part) {
 		if !e.Mine(i) || p.ViolationCount() >= 3 {
 			continue
 		}
-		key := fmt.Sprintf("%s n=%d t=%d off-polynomial party=%d scalar=%d delta=%d", j.sch.Name, j.n, j.t, j.victim, j.which, j.delta)
+		// party identifier sets: the unit is single-threaded per child, so the variant is a package variable
+		c18idVariant = i % 4
+		key := fmt.Sprintf("%s n=%d t=%d ids=%v off-polynomial position=%d scalar=%d delta=%d", j.sch.Name, j.n, j.t, c18ids(j.n), j.victim, j.which, j.delta)
 		p.Begin(key)
 		errs, panics, ok, tweaked := offPolynomialDKG(j.sch, j.n, j.t, j.victim, j.which, j.delta, e.Rng("c18dkg", i))
+		c18idVariant = 0
 		p.Case(key, true)
 		p.Count("dkg_runs", 1)
 		wit := map[string]interface{}{"scheme": j.sch.Name, "n": j.n, "t": j.t, "party": j.victim, "scalar": j.which, "delta": j.delta}
